@@ -512,8 +512,32 @@ def _vocab(f, expected):
   return out
 
 
-def delta(exp, act, scope_names):
+def pure_aliases(f):
+  """{local: source text} for locals of f bound exactly once to a plain name / attribute chain (`model = self.model`)."""
+  out = {}
+  node = astu._n(f)
+  if not isinstance(node, (ast.FunctionDef, ast.AsyncFunctionDef)):
+    return out
+  count = {}
+  for n in astu.body_walk(node):
+    if isinstance(n, ast.Name) and isinstance(n.ctx, (ast.Store, ast.Del)):
+      count[n.id] = count.get(n.id, 0) + 1
+  params = set(astu.params(node))
+  for n in astu.body_walk(node):
+    if isinstance(n, ast.Assign) and len(n.targets) == 1 and isinstance(n.targets[0], ast.Name) and count.get(n.targets[0].id) == 1 and n.targets[0].id not in params:
+      v = n.value
+      root = v
+      while isinstance(root, ast.Attribute):
+        root = root.value
+      if isinstance(v, (ast.Name, ast.Attribute)) and isinstance(root, ast.Name) and count.get(root.id, 0) <= (0 if root.id in params else 1):
+        out[n.targets[0].id] = astu.src(v)
+  return out
+
+
+def delta(exp, act, scope_names, aliases=None):
   """'same' | 'swap' | 'other' between an expected and an actual AST."""
+  if aliases and isinstance(act, ast.Name) and isinstance(exp, (ast.Name, ast.Attribute)) and aliases.get(act.id) == astu.src(exp):
+    return 'same'
   if type(exp) is not type(act):
     # a value replaced by a literal constant / empty container is a point edit, not a restructuring
     # the resolved local / parameter `x` replaced by the raw attribute `self.x` (or the other way round)
@@ -539,7 +563,7 @@ def delta(exp, act, scope_names):
       if not isinstance(b, list) or len(a) != len(b):
         return 'other'
       for x, y in zip(a, b):
-        d = delta(x, y, scope_names) if isinstance(x, ast.AST) else ('same' if x == y else 'other')
+        d = delta(x, y, scope_names, aliases) if isinstance(x, ast.AST) else ('same' if x == y else 'other')
         if d == 'other':
           return 'other'
         if d == 'swap':
@@ -551,7 +575,7 @@ def delta(exp, act, scope_names):
         continue
       if not isinstance(b, ast.AST):
         return 'other'
-      d = delta(a, b, scope_names)
+      d = delta(a, b, scope_names, aliases)
       if d == 'other':
         return 'other'
       if d == 'swap':
@@ -580,13 +604,22 @@ def judge_expr(R, f, node, expected, key, where, msg, follow=True, vocab=()):
     R.ok(key, where)
     return True
   names = _vocab(f, expected) | set(vocab)
+  al = pure_aliases(f)
+  for e in expected:
+    try:
+      ex = _parse_expr(e)
+    except SyntaxError:
+      continue
+    if al and any(delta(ex, a, names, al) == 'same' for a in alts):
+      R.ok(key, where)
+      return True
   for e in expected:
     try:
       ex = _parse_expr(e)
     except SyntaxError:
       continue
     for a in alts:
-      if delta(ex, a, names) == 'swap':
+      if delta(ex, a, names, al) == 'swap':
         R.fail(key, where, '%s: found `%s`, expected `%s`' % (msg, astu.short(a, 100), e))
         return False
   R.unsure(key, where, '%s: `%s` is not recognised (expected `%s`)' % (msg, astu.short(node, 100), expected[0]))
@@ -616,6 +649,7 @@ def judge_stmts(R, f, expected, key, where, msg, vocab=()):
   stmts = [n for n in astu.body_walk(node) if isinstance(n, ast.stmt) and not isinstance(n, (ast.If, ast.For, ast.While, ast.With, ast.Try, ast.FunctionDef, ast.ClassDef))]
   names = _vocab(f, expected) | set(vocab)
   texts = {astu.src(s_) for s_ in stmts}
+  al = pure_aliases(f)
   verdict, detail = 'ok', ''
   for e in expected:
     if e in texts:
@@ -626,7 +660,7 @@ def judge_stmts(R, f, expected, key, where, msg, vocab=()):
       verdict = 'unsure' if verdict != 'fail' else verdict
       continue
     cands = [s_ for s_ in stmts if _anchor(s_) is not None and _anchor(s_) == _anchor(ex)]
-    ds = [(delta(ex, s_, names), s_) for s_ in cands]
+    ds = [(delta(ex, s_, names, al), s_) for s_ in cands]
     if any(d == 'same' for d, _ in ds):
       continue
     sw = [s_ for d, s_ in ds if d == 'swap']
